@@ -760,7 +760,7 @@ func TestC39(t *testing.T) {
 		c39Gen, c39Exec)
 	pbt.Run(t, "C39",
 		"one poster goroutine per type (0..300 events, generated yield period), 1..2 controller goroutines doing subscribe/unsubscribe/stop once a poster reached a generated progress mark, 0..2 subscriptions made up front; schedule-independent oracle from progress counters published around every call: received events per type form a gap-free increasing run that covers every event whose Post started after Subscribe returned and finished before Unsubscribe/Stop was called, and contains no event finished before Subscribe was called, started after Unsubscribe/Stop returned or whose Post returned ErrMuxClosed; Post fails only after Stop was called and always after Stop returned; non-trivial = an explicitly unsubscribed subscriber with a non-empty must-window and posts of that type after its unsubscription; meant to run under -race",
-		pbt.Options{Sub: "concurrent", Checks: pbt.Per(1500, 240000),
+		pbt.Options{Sub: "concurrent", Journal: true, Checks: pbt.Per(1500, 240000),
 			MinClass: map[string]int{"must-window-nonempty": 100, "with-stop": 50, "nontrivial-conc": 50}},
 		c39CGen, c39CExec)
 }
